@@ -496,3 +496,64 @@ def run(ob, tier):
     if ob["which"] == "backoff":
         return backoff(ob, tier)
     return _run2(ob, tier)
+
+
+# ---------------------------------------------------------------- Maglev: affinity of a key
+_run3 = run
+
+
+def maglev(ob, tier):
+    """Maglev::next_available_backend: the stateful round-robin fallback (the only source of
+    key instability while the eligible set is unchanged) is reached only after the probe loop
+    walked the *whole* lookup table: the loop is `0..self.size` and is left early only by
+    returning a backend.  A shorter probe budget makes a key whose next slots all belong to
+    ineligible backends bounce between the eligible ones."""
+    src = open(mirrun.REPO + "/lib/src/load_balancing.rs").read()
+    m = re.search(r"pub struct Maglev \{(.*?)\n\}", src, re.S)
+    fields = re.findall(r"^\s*(?:pub(?:\([\w:]+\))? )?(\w+):", re.sub(r"//.*", "", m.group(1)), re.M)
+    size_place = "(*_1).%d" % fields.index("size")
+    fn = mirrun.get_fn("lib", "::next_available_backend", sig="&mut load_balancing::Maglev")
+    ex = engine.Executor(fn, loop_bound=lambda f, h: 1, max_nodes=200000)
+    ev = ex.run()
+    for i, e in enumerate(ev):
+        e.seq = i
+    q = Q(ex.ctx)
+    res = {"paths": ex.stats["nodes"], "functions": [fn.name]}
+    fallback = [e for e in ev if e.kind == "call" and re.search(r"RoundRobin.*next_available_backend$|<RoundRobin as LoadBalancingAlgorithm>::next_available_backend$", e.callee)]
+    nexts = [e for e in ev if e.kind == "call" and re.search(r"<std::ops::Range<usize> as Iterator>::next$", e.callee)]
+    stmts = [(bb, st) for bb, b in fn.blocks.items() for st in b["stmts"]]
+    ranges = [(bb, st) for bb, st in stmts if re.search(r"= std::ops::Range::<usize> \{ start: const 0_usize, end: (?:move|copy) (_\d+) \}$", st)]
+    problems = []
+    if not fallback or not nexts or not ranges:
+        return dict(res, verdict="inconclusive", why="shape: fallback calls=%d range loops=%d range literals=%d" % (len(fallback), len(nexts), len(ranges)))
+    # the probe range ends at self.size
+    full = False
+    for bb, st in ranges:
+        loc = re.search(r"end: (?:move|copy) (_\d+) \}$", st).group(1)
+        if any(re.match(r"^%s = copy \(\(\*_1\)\.%d: usize\)$" % (re.escape(loc), fields.index("size")), s2) for _, s2 in stmts):
+            full = True
+    if not full:
+        problems.append("the probe loop does not run over 0..self.size: the round-robin fallback (stateful) can answer for a key although an eligible backend owns a later slot of the table, so the key is not pinned while the eligible set is unchanged")
+    # keyed fallback only after the iterator was exhausted
+    keyed_fb = [f for f in fallback if any(n.seq < f.seq for n in nexts)]
+    for f in keyed_fb:
+        exhausted = []
+        for n in nexts:
+            if n.seq < f.seq:
+                d = n.result_discr or ex.initial.get("discr(%s)" % n.dest)
+                exhausted.append(engine.AND(n.guard, "(= %s %s)" % (d.term, engine.bv(0, 64))))
+        if q([f.guard, engine.NOT(engine.OR(*exhausted))])[0] != "unsat":
+            problems.append("the round-robin fallback is reachable before the probe loop is exhausted")
+    wit = [q([engine.OR(*[f.guard for f in fallback])])[0]]
+    res["witness"] = "fallback reachable: %s; %d fallback sites, probe bound is self.size: %s" % (wit, len(fallback), full)
+    res["witness_ok"] = all(w == "sat" for w in wit)
+    res["queries"], res["solver_s"] = q.n, round(q.secs, 2)
+    if problems:
+        return dict(res, verdict="counterexample", text="; ".join(problems), model={"problems": problems}, replay={"reproduced": False, "why": "no native replay"})
+    return dict(res, verdict="holds")
+
+
+def run(ob, tier):
+    if ob["which"] == "maglev":
+        return maglev(ob, tier)
+    return _run3(ob, tier)
